@@ -55,3 +55,45 @@ theorem L6_partition_length {α : Type} (p : α → Bool) (l : List α) :
   | nil => simp
   | cons x xs ih =>
     by_cases h : p x <;> simp [List.filter, h] <;> omega
+
+/-- L7 (windowed reader): a stateful reader whose every call either delivers the head of its pending rows (which then
+satisfies `p`) or stops leaving pending unchanged — and stops only when pending is empty or its head fails `p` — delivers,
+when drained, exactly the longest prefix of pending whose rows satisfy `p`, in order, each once; what remains pending is the
+rest (C11). `view s` is the abstract pending list, `step s` one call of `__next__`. -/
+theorem L7_window {σ α : Type} (view : σ → List α) (p : α → Prop) [DecidablePred p] (step : σ → Option (α × σ))
+    (hdeliver : ∀ s x s', step s = some (x, s') → view s = x :: view s' ∧ p x)
+    (hstop : ∀ s, step s = none → view s = [] ∨ ∃ y ys, view s = y :: ys ∧ ¬ p y) :
+    ∀ (n : ℕ) (s : σ), (view s).length ≤ n →
+      ∃ (out : List α) (s' : σ), view s = out ++ view s' ∧ (∀ x ∈ out, p x) ∧
+        (view s' = [] ∨ ∃ y ys, view s' = y :: ys ∧ ¬ p y) := by
+  intro n
+  induction n with
+  | zero =>
+    intro s hlen
+    have hnil : view s = [] := List.eq_nil_of_length_eq_zero (Nat.le_zero.mp hlen)
+    refine ⟨[], s, by simp, by simp, ?_⟩
+    cases hs : step s with
+    | none => exact hstop s hs
+    | some xs =>
+      obtain ⟨x, s'⟩ := xs
+      have := (hdeliver s x s' hs).1
+      rw [hnil] at this
+      exact absurd this (by simp)
+  | succ n ih =>
+    intro s hlen
+    cases hs : step s with
+    | none => exact ⟨[], s, by simp, by simp, hstop s hs⟩
+    | some xs =>
+      obtain ⟨x, s'⟩ := xs
+      obtain ⟨hv, hpx⟩ := hdeliver s x s' hs
+      have hlen' : (view s').length ≤ n := by
+        rw [hv] at hlen
+        simp at hlen
+        omega
+      obtain ⟨out, s'', hout, hall, hnone⟩ := ih s' hlen'
+      refine ⟨x :: out, s'', ?_, ?_, hnone⟩
+      · rw [hv, hout]; simp
+      · intro y hy
+        cases List.mem_cons.mp hy with
+        | inl h => rw [h]; exact hpx
+        | inr h => exact hall y h
